@@ -10,6 +10,7 @@ def analyse(ctx: CheckContext, p: Program):
     r = Resolver(p)
     tables.check_interpolation_keys(ctx, p, r)
     tables.check_capacity_pairs(ctx, p, r)
+    tables.check_insert_count(ctx, p, r)
 
 
 def run(ctx: CheckContext):
@@ -17,6 +18,7 @@ def run(ctx: CheckContext):
     analyse(ctx, p)
     ctx.floor("T1", 15)
     ctx.floor("T2", 6)
+    ctx.floor("COUNT", 3)
     ctx.assumptions += [
         "decides table membership only: interpolation arithmetic, ordering/dedup within tolerance and the interval-width convention of rebuilt rows are NOT decided "
         "(the off-centre interval-width behaviour named in the property has no structural signature and is not detected)",
@@ -25,4 +27,5 @@ def run(ctx: CheckContext):
     pt = "OpenPinch/classes/problem_table.py"
     run_control(ctx, "C08/key-removed", analyse, p.root, pt, "    PT.H_NET_UT.value,\n", "", "T1")
     run_control(ctx, "C08/key-duplicated", analyse, p.root, pt, "    PT.H_HOT_UT.value,\n    PT.H_COLD_UT.value,\n", "    PT.H_HOT_UT.value,\n    PT.H_HOT_UT.value,\n", "T1")
+    run_control(ctx, "C08/count-off", analyse, p.root, pt, "        return new_data, inserted_total", "        return new_data, len(interval_map)", "COUNT")
     run_control(ctx, "C08/pair-crossed", analyse, p.root, pt, "(PT.CP_COLD.value, PT.DELTA_H_COLD.value)", "(PT.CP_COLD.value, PT.DELTA_H_HOT.value)", "T2")
